@@ -366,6 +366,9 @@ class FakeKernel:
             self.real.add(pid)
             return pid
         env = {}
+        if env_list is None:
+            # Popen(env=None): the child inherits the parent's environment as it is at this very moment
+            env = dict(os.environ)
         for e in env_list or []:
             k, _, v = os.fsdecode(e).partition("=")
             env[k] = v
